@@ -165,7 +165,7 @@ theorem obsL_explicitL_fresh (S : Schema) : ∀ (l : List DNode), freshExplL l =
 
 /-- **`implicit_exact_tree` for schemas without `choice`**: the validated tree of fresh data = `rfcComplete` of the input -/
 theorem validate_rfcComplete_nochoice (X : SchemaX) (o : VOpts) (t : List DNode) (hno : o.noState = false) (hD : DataSchema X)
-    (hf : freshExplL t = true) (hp : placedL X X.top t = true) (hs : shapedL X.base t = true)
+    (hf : freshExplL t = true) (hp : placedL X X.top t = true) (hs : cShapedL X.base t = true)
     (hh : sheightL X.top ≤ walkFuel X t) (hpe : (o.present && t.isEmpty) = false) :
     obsL X.base (validate X o t).tree = obsL X.base (rfcComplete X o t) := by
   rw [validate_rfc_nochoice X o t hno hD hf hp hs hh hpe]
